@@ -3963,6 +3963,192 @@ def r_function_views(P, R):
 r_function_views.NAME = 'R-ROLE(Function views model)'
 
 
+def copy_model(P, R):
+    """Copying between managers interpreted with everything it calls:
+    `dd.bdd.BDD.copy` / `dd.bdd.copy_bdd` on node numbers, and
+    `dd._copy.copy_bdd` / `copy_bdds_from` on handles of `dd.autoref`
+    (one memo shared by several roots), from a manager over a, b, c
+    into managers with another variable order, with a further variable,
+    and with nodes of their own.  C11: the result denotes, by variable
+    name, the function that was copied; it belongs to the target; the
+    target stays reduced and consistent; its own references keep their
+    functions; the source is untouched."""
+    import itertools
+    stubs = ClassStubs(P, 'dd.bdd.BDD', extra={
+        '_request_reordering': lambda m, c, a, k: None})
+    res_b = interp.ModuleEnv(P, 'dd.bdd', stubs)
+    res_c = res_b.module('dd._copy')
+    res_a = res_b.module('dd.autoref')
+    names = ['a', 'b', 'c']
+    rows = list(itertools.product((False, True), repeat=3))
+    tts = [tuple(bool(a and not b) for a, b, c in rows),
+           tuple(bool(b if a else c) for a, b, c in rows),
+           tuple(bool(a != c) for a, b, c in rows),
+           tuple(bool(c) for a, b, c in rows)]
+    rows4 = list(itertools.product((False, True), repeat=4))
+    own = [tuple(bool(b and d) for a, b, c, d in rows4)]
+    problems = dict()
+    n = 0
+    cb = P.func('dd.bdd.copy_bdd')
+    meth = P.func('dd.bdd.BDD.copy')
+    c1 = P.func('dd._copy.copy_bdd', required=False)
+    cm = P.func('dd._copy.copy_bdds_from', required=False)
+
+    def fresh(env):
+        return _object_manager(copy.deepcopy(
+            {k: v for k, v in env.items() if k != 'self'}))
+
+    def targets():
+        t1, e1 = _build_manager(['c', 'a', 'b'], [], [])
+        t2, e2 = _build_manager(['b', 'd', 'c', 'a'], own, [0])
+        t3, e3 = _build_manager(['a', 'b', 'c'], [tts[2]], [0])
+        return [('the order c, a, b', t1, e1, ['a', 'b', 'c']),
+                ('the order b, d, c, a and a node of its own', t2, e2,
+                 ['a', 'b', 'c', 'd']),
+                ('the same order and a node of its own', t3, e3,
+                 ['a', 'b', 'c'])]
+
+    def widen(t, tnames):
+        # the table of a function of a, b, c over the names of the target
+        trs = list(itertools.product((False, True), repeat=len(tnames)))
+        return tuple(t[rows.index(tuple(
+            dict(zip(tnames, r))[x] for x in names))] for r in trs)
+
+    def after(f, what, src0, src, tgt0, tgt, text, tnames, pairs):
+        for u, r in pairs:
+            if not isinstance(r, int) or isinstance(r, bool) or abs(
+                    r) not in tgt.attrs['_succ']:
+                problems.setdefault((f, 'raises'), (
+                    f'{what}: {u} comes back as {r!r}'))
+                return
+            if _tt_obj(tgt, r, tnames) != widen(
+                    _tt_of(src0, u, names), tnames):
+                problems.setdefault((f, 'wrong-function'), (
+                    f'{what}: the copy {r} of {u} does not denote the '
+                    'same function of the same-named variables (target '
+                    f'nodes {tgt.attrs["_succ"]}, levels '
+                    f'{tgt.attrs["vars"]})'))
+                return
+        if any(src.attrs[k] != src0['self.' + k]
+               for k in ('vars', '_succ', '_ref')):
+            problems.setdefault((f, 'source-changed'), (
+                f'{what}: the source manager changed'))
+            return
+        for r_ in text:
+            if abs(r_) not in tgt.attrs['_succ'] or _tt_obj(
+                    tgt, r_, tnames) != _tt_of(tgt0, r_, tnames):
+                problems.setdefault((f, 'target-live'), (
+                    f'{what}: the reference {r_} of the target does not '
+                    'denote what it did'))
+                return
+    try:
+        src0, sext = _build_manager(['a', 'b', 'c'], tts, range(len(tts)))
+        roots = sorted(sext)
+        refs = [1, -1] + [s_ * u for u in roots for s_ in (1, -1)]
+        for tname, tgt0, text, tnames in targets():
+            for u in refs:
+                for f in (cb, meth):
+                    n += 1
+                    src, tgt = fresh(src0), fresh(tgt0)
+                    ps = [p for p in f.params if p != 'self']
+                    if f is meth:
+                        env = {'self': src, ps[0]: u, ps[1]: tgt}
+                    else:
+                        env = {ps[0]: u, ps[1]: src, ps[2]: tgt}
+                    out, _ = interp.run_function(
+                        f.node, env, stubs, res_b)
+                    what = (f'{f.name}({u}) from nodes '
+                            f'{src0["self._succ"]} into a manager with '
+                            f'{tname}')
+                    if out[0] != 'return':
+                        problems.setdefault((f, 'raises'), (
+                            f'{what}: {out[0]} {out[1]!r}'))
+                        continue
+                    after(f, what, src0, src, tgt0, tgt, text, tnames,
+                          [(u, out[1])])
+                    env_t = {f'self.{k}': v for k, v in tgt.attrs.items()}
+                    bad = _manager_complaints(env_t, dict(text))
+                    if bad:
+                        problems.setdefault((f, 'target-tables'), (
+                            f'{what}: {bad}'))
+            if c1 is None or cm is None:
+                continue
+            fcls = res_a('Function')
+            bcls = res_a('BDD')
+            for rs in ([refs[2]], [refs[3], refs[4]],
+                       [refs[6], -1, refs[7], refs[2], refs[6]]):
+                for f in (c1, cm):
+                    n += 1
+                    src, tgt = fresh(src0), fresh(tgt0)
+                    ws = interp.Sym('autoref source', {
+                        '_bdd': src, 'vars': src.attrs['vars']})
+                    ws.cls = bcls
+                    wt = interp.Sym('autoref target', {
+                        '_bdd': tgt, 'vars': tgt.attrs['vars']})
+                    wt.cls = bcls
+                    hs = []
+                    for u in rs:
+                        h = interp.Sym('Function', {
+                            'node': u, 'bdd': ws, 'manager': src})
+                        h.cls = fcls
+                        hs.append(h)
+                    ps = list(f.params)
+                    what = (f'dd._copy.{f.name}({rs}) from nodes '
+                            f'{src0["self._succ"]} into a manager with '
+                            f'{tname}')
+                    if f is c1:
+                        env = {ps[0]: hs[0], ps[1]: wt}
+                        if len(ps) > 2:
+                            env[ps[2]] = None
+                    else:
+                        env = {ps[0]: list(hs), ps[1]: wt}
+                    out, _ = interp.run_function(
+                        f.node, env, stubs, res_c)
+                    got = out[1] if f is cm else [out[1]]
+                    if out[0] != 'return' or not isinstance(
+                            got, list) or not all(
+                                isinstance(x, interp.Sym) and x.attrs
+                                for x in got) or len(got) != (
+                                    len(rs) if f is cm else 1):
+                        problems.setdefault((f, 'raises'), (
+                            f'{what}: {out[0]} {out[1]!r}'))
+                        continue
+                    if any(x.attrs.get('bdd') is not wt for x in got):
+                        problems.setdefault((f, 'other-manager'), (
+                            f'{what}: a handle returned does not belong '
+                            'to the target'))
+                        continue
+                    # (the handles made on the way hold counts of the
+                    # source until they are dropped: counts are not
+                    # compared here)
+                    src.attrs['_ref'] = copy.deepcopy(src0['self._ref'])
+                    after(f, what, src0, src, tgt0, tgt, text, tnames,
+                          [(u, x.attrs.get('node'))
+                           for u, x in zip(rs, got)])
+    except (interp.Unknown, KeyError) as e:
+        R.undecided('R-DOMAIN', 'copy between managers', 'copy model',
+                    str(e))
+        return None
+    for (f, sub), msg in sorted(problems.items(),
+                                key=lambda kv: (kv[0][0].qualname, kv[0][1])):
+        R.violation('R-DOMAIN', f'copy-{sub}', f.qualname, f.name, msg,
+                    unit=f.unit.rel, line=f.lineno)
+    if not problems:
+        R.holds('R-DOMAIN', 'copy between managers',
+                f'copy model ({n} calls): the copy denotes the same '
+                'function of the same-named variables in the target, '
+                'whatever its order and contents; target consistent, '
+                'source untouched')
+    return n
+
+
+def r_copy(P, R):
+    n = copy_model(P, R)
+    if n is not None:
+        R.floor('R-DOMAIN calls of the copy model', n, 40)
+r_copy.NAME = 'R-DOMAIN(copy model)'
+
+
 def dot_model(P, R):
     """`dd.bdd._to_dot(roots, bdd)` interpreted (with `dd._utils.DotGraph`)
     on small managers: the graph it builds must show, for every node
